@@ -6,13 +6,30 @@ class C05(ProgProp):
     report = ("C05", "C01")  # "...and that is what the waiting task receives"
     cross_check = False
     cfg = {"p_sync": 0.08, "p_try": 0.1, "p_fault": 0.05, "max_kinds": 4, "item_faults": 0.06, "flush_faults": 0.12,
-           "p_item": 0.55, "base_exc": 0.3, "p_item_value_sync": 0.15, "flush_reenter": 0.25, "flush_cancels": 0.3}
+           "p_item": 0.55, "base_exc": 0.3, "p_item_value_sync": 0.15, "flush_reenter": 0.25, "flush_cancels": 0.3, "p_item_eq": 0.2}
 
     def tune(self, rng, cfg, tier):
         if rng.random() < 0.6:
             cfg["p_sync"] = 0.0  # yield-only: the priority rule applies
             cfg["kinds"] = rng.randint(2, 4)
         return cfg
+
+
+    def gen(self, rng, tier, k):
+        if k % 16 == 9:
+            from .. import gen as g
+            spec = g.motif_cancel_scheduled(rng)
+            spec["keep_prio"] = True
+            return self.motif_case(rng, tier, spec)
+        return ProgProp.gen(self, rng, tier, k)
+
+    def post_spec(self, rng, spec, cfg, tier):
+        import json
+        import zlib
+        # one program in five keeps the dependencies of flushed batches (a debug option): a batch
+        # flushed by item.value() inside a task then still holds its items while it is scheduled
+        if zlib.crc32(json.dumps(spec["templates"], sort_keys=True).encode()) % 5 == 0:
+            spec["options"] = {"KEEP_DEPENDENCIES": True}
 
 
 PROP = C05()
